@@ -1,6 +1,8 @@
 /* hnorm: executor/recorder for wcsnorm_s and the case-folding functions (C17).
  * stdin:  id n mode dmax len cp1..cplen          wcsnorm_s(dest,dmax,src,mode(0 NFD,1 NFC),&len)
  *         id f cp                                iswfc(cp), towfc_s(dest,4,cp), wcsfc_s(dest,16,{cp},&len)
+ *         id w dmax len cp1..cplen               wcsfc_s(dest,dmax,src,&len); next to it the number of elements wcsfc_s emits for each
+ *                                                character alone (into an ample buffer) is recorded
  * dest lies flush against a guard page.  No expectations in here. */
 #include "hcommon.h"
 int main(void) {
@@ -24,7 +26,7 @@ int main(void) {
             src[len] = 0;
             for (i = 0; i < R.rwlen / 4; i++) ((uint32_t *)R.rw)[i] = 0x5C5C5C5C;
             dest = (wchar_t *)(R.rw + R.rwlen) - dmax;
-            h_n = 0; errno = 0; h_fault_kind = 0;
+            h_n = 0; errno = H_ERRNO_PRE(id); h_fault_kind = 0;
             printf("#%ld\n", id); fflush(stdout);
             if (!sigsetjmp(h_jb, 1)) {
                 h_armed = 1; alarm(5);
@@ -37,6 +39,41 @@ int main(void) {
             printf("],\"post\":[");
             for (i = 0; i < dmax && i < 400; i++) printf("%s%ld", i ? "," : "", (long)(uint32_t)dest[i] > 2000000000L ? 2000000000L : (long)(uint32_t)dest[i]);
             printf("],\"rc\":%ld,\"len\":%ld,", rc, (long)outlen);
+            h_print_handlers(stdout);
+            printf(",\"frame_ok\":%s,\"fault\":\"%s\"}\n", frame_ok ? "true" : "false", h_fault_name(fk));
+        } else if (op[0] == 'w') {
+            long dmax, len, i;
+            static wchar_t src[512];
+            long each[512];
+            wchar_t *dest;
+            rsize_t outlen = 77777;
+            long rc = -9999;
+            int fk = 0, frame_ok = 1;
+            scanf("%ld %ld", &dmax, &len);
+            for (i = 0; i < len; i++) { long v; scanf("%ld", &v); src[i] = (wchar_t)v; }
+            src[len] = 0;
+            for (i = 0; i < len; i++) {   /* per-character emission, ample room */
+                wchar_t one[2], big[32]; rsize_t l1 = 0;
+                one[0] = src[i]; one[1] = 0;
+                each[i] = (_wcsfc_s_chk(big, 32, one, &l1, BOSU) == 0) ? (long)l1 : -1;
+            }
+            for (i = 0; i < R.rwlen / 4; i++) ((uint32_t *)R.rw)[i] = 0x5C5C5C5C;
+            dest = (wchar_t *)(R.rw + R.rwlen) - dmax;
+            h_n = 0; errno = H_ERRNO_PRE(id); h_fault_kind = 0;
+            printf("#%ld\n", id); fflush(stdout);
+            if (!sigsetjmp(h_jb, 1)) {
+                h_armed = 1; alarm(5);
+                rc = _wcsfc_s_chk(dest, (rsize_t)dmax, src, &outlen, BOSU);
+                alarm(0); h_armed = 0;
+            } else { alarm(0); fk = h_fault_kind; }
+            for (i = 0; i < (R.rwlen / 4) - dmax; i++) if (((uint32_t *)R.rw)[i] != 0x5C5C5C5C) { frame_ok = 0; break; }
+            printf("{\"id\":%ld,\"op\":\"w\",\"dmax\":%ld,\"s\":[", id, dmax);
+            for (i = 0; i < len; i++) printf("%s%ld", i ? "," : "", (long)(uint32_t)src[i]);
+            printf("],\"each\":[");
+            for (i = 0; i < len; i++) printf("%s%ld", i ? "," : "", each[i]);
+            printf("],\"post\":[");
+            for (i = 0; i < dmax && i < 400; i++) printf("%s%ld", i ? "," : "", (long)(uint32_t)dest[i] > 2000000000L ? 2000000000L : (long)(uint32_t)dest[i]);
+            printf("],\"rc\":%ld,\"len\":%ld,", rc, outlen > 1000000 ? -1L : (long)outlen);
             h_print_handlers(stdout);
             printf(",\"frame_ok\":%s,\"fault\":\"%s\"}\n", frame_ok ? "true" : "false", h_fault_name(fk));
         } else {
